@@ -630,7 +630,23 @@ fn eval_in(case: &CliCase, stats: &mut Counters, bin: &Path, dir: &Path) -> Opti
             if let Some(w) = writer {
                 // the tool has exited: open the read side ourselves (non-blocking) so that a writer
                 // still blocked in open() or write() gets through, whatever the tool did
-                let unblock = std::fs::OpenOptions::new().read(true).custom_flags_nonblock().open(&inpath);
+                // (and drain what it still writes: with a reader that never reads the feeder would
+                // block for ever once the pipe buffer is full)
+                let mut unblock = std::fs::OpenOptions::new().read(true).custom_flags_nonblock().open(&inpath);
+                let mut sink = vec![0u8; 65536];
+                let t0 = std::time::Instant::now();
+                while !w.is_finished() {
+                    let got = match unblock.as_mut() {
+                        Ok(f) => std::io::Read::read(f, &mut sink).unwrap_or(0),
+                        Err(_) => 0,
+                    };
+                    if got == 0 {
+                        std::thread::sleep(std::time::Duration::from_millis(1));
+                    }
+                    if t0.elapsed().as_secs() > 600 {
+                        harness_error("the FIFO feeder thread does not end");
+                    }
+                }
                 let _ = w.join();
                 drop(unblock);
             }
